@@ -5,8 +5,9 @@
 -/
 import TE.Model.Count
 import TE.Spec.Count
+import TE.Lemmas.Count
 namespace TE.C04
-open TE TE.Count TE.Spec.Count
+open TE TE.Count TE.Spec.Count TE.CountL
 
 /-- `torch.where(input < threshold, 0, 1)` is the textbook `[x ≥ thr]`,
     including `x = thr` (boundary counted as positive). -/
@@ -17,5 +18,125 @@ theorem thresh_eq_binPred (thr x : Q) : thresh thr x = binPred thr x := by
     simp [h, this]
   · have : thr ≤ x := Rat.not_lt.mp h
     simp [h, this]
+
+/-- the left fold used by the models is the ordinary list sum. -/
+theorem qsum_eq_sum (l : List Q) : qsum l = l.sum := CountL.qsum_eq_sum l
+
+/-! ## 1. scatter = counting -/
+
+/-- `zeros(n).scatter_(0, idx, vals, "add")`: entry `c` is the sum of the values
+    sitting at the positions where `idx = c`. -/
+theorem scatterAdd_eq_sum (n : Nat) (idx : List Nat) (vals : List Q)
+    (h : idx.all (· < n) = true) :
+    scatterAdd n idx vals = .ok ((List.range n).map fun c =>
+      (((idx.zip vals).filter fun p => p.1 == c).map (·.2)).sum) :=
+  scatterAdd_ok n idx vals h
+
+theorem scatterAdd_error (n : Nat) (idx : List Nat) (vals : List Q)
+    (h : ¬ idx.all (· < n) = true) : scatterAdd n idx vals = .error .runtime :=
+  CountL.scatterAdd_error n idx vals h
+
+/-- scatter of ones = per-class occurrence counts. -/
+theorem scatterOnes_eq_count (n : Nat) (idx : List Nat) (h : idx.all (· < n) = true) :
+    scatterOnes n idx = .ok ((List.range n).map fun c => (idx.count c : Q)) :=
+  scatterOnes_ok n idx h
+
+theorem scatterOnes_error (n : Nat) (idx : List Nat) (h : ¬ idx.all (· < n) = true) :
+    scatterOnes n idx = .error .runtime :=
+  CountL.scatterAdd_error n idx _ h
+
+/-- `scatterOnes` succeeds exactly on in-range indices. -/
+theorem scatterOnes_ok_iff (n : Nat) (idx : List Nat) :
+    (∃ v, scatterOnes n idx = .ok v) ↔ idx.all (· < n) = true := by
+  constructor
+  · intro ⟨v, hv⟩
+    apply Decidable.byContradiction
+    intro h
+    rw [scatterOnes_error n idx h] at hv
+    cases hv
+  · intro h; exact ⟨_, scatterOnes_ok n idx h⟩
+
+
+example : scatterOnes 3 [2, 0, 2] = .ok [1, 0, 2] := by
+  rw [scatterOnes_eq_count _ _ (by decide)]; simp [List.range, List.range.loop]
+example : scatterOnes 3 [2, 3] = .error .runtime := scatterOnes_error _ _ (by decide)
+example : scatterAdd 3 [2, 0, 2] [5, 7, 11] = .ok [7, 0, 16] := by
+  rw [scatterAdd_eq_sum _ _ _ (by decide)]; simp [List.range, List.range.loop, List.filter]; grind
+
+/-! ## 4. `_precision_update` / `_recall_update` = per-class counts -/
+
+/-- per-class (macro / weighted / none) precision state: true positives, false
+    positives and label counts of every class. -/
+theorem precisionUpdate_eq (preds labs : List Nat) (avg : Avg) (C : Nat)
+    (hlen : preds.length = labs.length)
+    (hp : preds.all (· < C) = true) (hl : labs.all (· < C) = true) (havg : avg ≠ .micro) :
+    precisionUpdate preds labs avg C = .ok
+      ⟨(List.range C).map fun c => (tp (preds.zip labs) c : Q),
+       (List.range C).map fun c => (fp (preds.zip labs) c : Q),
+       (List.range C).map fun c => (support (preds.zip labs) c : Q)⟩ := by
+  have h1 := scatterOnes_ok C labs hl
+  have h2 := scatterOnes_ok C _ (all_snd_filter_zip preds labs (fun p => p.1 == p.2) C hl)
+  have h3 := scatterOnes_ok C _ (all_fst_filter_zip preds labs (fun p => p.1 != p.2) C hp)
+  cases avg <;> first | exact absurd rfl havg | skip
+  all_goals
+    simp only [precisionUpdate, h1, h2, h3, bind, Except.bind, ← tp_eq_count, ← fp_eq_count,
+      support_zip preds labs hlen]
+
+/-- micro precision state: `(#correct, #wrong, 0)`. -/
+theorem precisionUpdate_micro_eq (preds labs : List Nat) (C : Nat) :
+    precisionUpdate preds labs .micro C = .ok
+      ⟨[(correct (preds.zip labs) : Q)],
+       [(((preds.zip labs).length - correct (preds.zip labs) : Nat) : Q)], [0]⟩ := by
+  have h := correct_add_wrong (preds.zip labs)
+  have : (preds.zip labs).length - correct (preds.zip labs)
+      = (preds.zip labs).countP (fun p => p.1 != p.2) := by omega
+  rw [this]; rfl
+
+/-- an out-of-range label makes `_precision_update` raise. -/
+theorem precisionUpdate_error (preds labs : List Nat) (avg : Avg) (C : Nat)
+    (hl : ¬ labs.all (· < C) = true) (havg : avg ≠ .micro) :
+    precisionUpdate preds labs avg C = .error .runtime := by
+  have h1 := scatterOnes_error C labs hl
+  cases avg <;> first | exact absurd rfl havg | skip
+  all_goals simp only [precisionUpdate, h1, bind, Except.bind]
+
+example : precisionUpdate [0, 2, 1, 2] [0, 1, 1, 2] .macro 3 = .ok ⟨[1, 1, 1], [0, 0, 1], [1, 2, 1]⟩ := by
+  rw [precisionUpdate_eq _ _ _ _ rfl (by decide) (by decide) (by decide)]
+  simp [List.range, List.range.loop, tp, fp, support]
+
+/-- per-class recall / F1 state: true positives, label counts, prediction counts. -/
+theorem recallUpdate_eq (preds labs : List Nat) (avg : Avg) (C : Nat)
+    (hlen : preds.length = labs.length)
+    (hp : preds.all (· < C) = true) (hl : labs.all (· < C) = true) (havg : avg ≠ .micro) :
+    recallUpdate preds labs avg C = .ok
+      ⟨(List.range C).map fun c => (tp (preds.zip labs) c : Q),
+       (List.range C).map fun c => (support (preds.zip labs) c : Q),
+       (List.range C).map fun c => (predicted (preds.zip labs) c : Q)⟩ := by
+  have h1 := scatterOnes_ok C labs hl
+  have h2 := scatterOnes_ok C _ (all_snd_filter_zip preds labs (fun p => p.1 == p.2) C hl)
+  have h3 := scatterOnes_ok C preds hp
+  cases avg <;> first | exact absurd rfl havg | skip
+  all_goals
+    simp only [recallUpdate, h1, h2, h3, bind, Except.bind, ← tp_eq_count,
+      support_zip preds labs hlen, predicted_zip preds labs hlen]
+
+/-- micro recall / F1 state: `(#correct, n, n)`. -/
+theorem recallUpdate_micro_eq (preds labs : List Nat) (C : Nat) :
+    recallUpdate preds labs .micro C = .ok
+      ⟨[(correct (preds.zip labs) : Q)], [(labs.length : Q)], [(labs.length : Q)]⟩ := rfl
+
+theorem recallUpdate_error (preds labs : List Nat) (avg : Avg) (C : Nat)
+    (h : ¬ (preds.all (· < C) = true ∧ labs.all (· < C) = true)) (havg : avg ≠ .micro) :
+    recallUpdate preds labs avg C = .error .runtime := by
+  cases avg <;> first | exact absurd rfl havg | skip
+  all_goals
+    by_cases hl : labs.all (· < C) = true
+    · have hp : ¬ preds.all (· < C) = true := fun hp => h ⟨hp, hl⟩
+      simp only [recallUpdate, scatterOnes_ok C labs hl, scatterOnes_error C preds hp, bind, Except.bind]
+    · simp only [recallUpdate, scatterOnes_error C labs hl, bind, Except.bind]
+
+example : recallUpdate [0, 2, 1, 2] [0, 1, 1, 2] .none 3 = .ok ⟨[1, 1, 1], [1, 2, 1], [1, 1, 2]⟩ := by
+  rw [recallUpdate_eq _ _ _ _ rfl (by decide) (by decide) (by decide)]
+  simp [List.range, List.range.loop, tp, predicted, support]
 
 end TE.C04
